@@ -222,14 +222,29 @@ func genC19(t *Tape, tier string) *Scenario {
 		switch {
 		case !t.HasOver("c19frag"):
 			// drawn: a path and up to three parameters for each command
-			mailLine = "MAIL FROM:" + c19Paths[t.Intn(len(c19Paths))]
-			for i, n := 0, t.Intn(4); i < n; i++ {
-				mailLine += " " + c19MailParams[t.Intn(len(c19MailParams))]
+			// (the server walks the parameters in the order of a Go map: with two malformed
+			// ones it is a matter of chance which of them the reply names, so a line gets at
+			// most one fragment from the list, next to parameters that are certainly fine)
+			fineMail := []string{"SIZE=100", "BODY=8BITMIME", "SMTPUTF8", "RET=FULL", "ENVID=abc", "AUTH=<>"}
+			fineRcpt := []string{"NOTIFY=NEVER", "ORCPT=rfc822;a@b.example", "RRVS=2014-04-03T23:01:00Z"}
+			build := func(verb, plain string, fine, frags []string) string {
+				l := verb + plain
+				odd := ""
+				if t.Bool() {
+					odd = frags[t.Intn(len(frags))] // one fragment from the list, with the plain path
+				} else {
+					l = verb + c19Paths[t.Intn(len(c19Paths))] // or an odd path, with nothing else odd
+				}
+				for i, n := 0, t.Intn(3); i < n; i++ {
+					l += " " + fine[t.Intn(len(fine))]
+				}
+				if odd != "" {
+					l += " " + odd
+				}
+				return l
 			}
-			rcptLine = "RCPT TO:" + c19Paths[t.Intn(len(c19Paths))]
-			for i, n := 0, t.Intn(4); i < n; i++ {
-				rcptLine += " " + c19RcptParams[t.Intn(len(c19RcptParams))]
-			}
+			mailLine = build("MAIL FROM:", "<ok-s@a.example>", fineMail, c19MailParams)
+			rcptLine = build("RCPT TO:", "<ok-r@b.example>", fineRcpt, c19RcptParams)
 		case frag < len(c19Paths):
 			if t.Bool() {
 				mailLine = "MAIL FROM:" + c19Paths[frag]
